@@ -198,3 +198,32 @@ func c06clockNative() {
 		c06clockRegistered = true
 	}
 }
+
+// dropping or updating an exchange keeps the ranking: afterwards the client is still not ranked older
+// than any exchange that remains on record, and the index is still a heap
+func c07RankUpdate(maxLen int) {
+	c06clock()
+	id, other := v.String("client"), v.String("other")
+	v.Assume(id != other)
+	cur, _, present := c06setupP(id, other, maxLen, true)
+	rxt := c06time("rxt")
+	txt := c06time("txt")
+	updateTXTimestamp(id, rxt, &txt)
+	now, ok := tss[id]
+	if ok {
+		v.Assert(present && now == cur, "C07.order.update-keeps-the-record-object")
+		for i := 0; i < tssItemCap; i++ {
+			if i < now.len {
+				v.Assert(!now.qval.Before(now.buf[i].rxt), "C07.order.rank-not-older-than-any-remaining-exchange-after-update")
+			}
+		}
+		v.Assert(tssQ[now.qidx] == now, "C07.order.index-backpointer-after-update")
+	}
+	c07heapOK("C07.order.after-update")
+	v.Assert(len(tss) == len(tssQ), "C07.order.map-and-index-same-size")
+	v.Assert(!v.MutexHeld(&tssMu), "C07.lock.released-on-exit")
+	v.Reach("C07.rankupdate")
+}
+
+func VerifC07RankUpdate3() { c07RankUpdate(3) }
+func VerifC07RankUpdate4() { c07RankUpdate(4) }
